@@ -317,6 +317,10 @@ FIXED = {
     "chain_trailing_op": lambda n: "x = " + " + ".join(["a"] * n) + " +\n",
     "args_bad_tail": lambda n: "f(" + ",".join(["a"] * n) + " b)\n",
     "stmts_then_error": lambda n: "a = 1\n" * n + "b c\n",
+    "list_binop_items_bad": lambda n: "[" + "a-b, " * n + " b] ]\n",
+    "tuple_binop_items_bad": lambda n: "a-b, " * n + " b )\n",
+    "list_call_items_bad": lambda n: "[" + "f(a), " * n + " b] ]\n",
+    "list_subscript_items_bad": lambda n: "x = [" + "a[0], " * n + " b] ]\n",
     "slice_bad": lambda n: "[" * n + "a :" + "]" * n + "\n",
     "ifexp_bad": lambda n: "[" * n + "a if" + "]" * n + "\n",
 }
@@ -324,7 +328,7 @@ BREADTH = {
     "dict_items", "list_items", "call_args", "call_kwargs", "binop_chain", "boolop_chain", "compare_chain", "attr_chain", "call_chain", "subscript_chain",
     "statements", "if_blocks", "def_blocks", "for_else_blocks", "with_blocks", "try_blocks", "class_blocks", "while_nested_blocks", "match_blocks", "with_macro_blocks", "semicolons", "string_pieces", "assign_chain", "target_tuple", "lambda_params", "def_params", "type_params", "decorators", "elif", "cases",
     "match_or", "except_clauses", "with_items", "import_names", "global_names", "star_args", "subproc_words", "subproc_glued", "subproc_env", "pipes",
-    "macro_args", "fstring_fields", "fstr_spec", "comp_fors", "comp_ifs", "slices_tuple", "help_chain", "and_or_xonsh", "chain_trailing_op", "args_bad_tail", "stmts_then_error",
+    "macro_args", "fstring_fields", "fstr_spec", "comp_fors", "comp_ifs", "slices_tuple", "help_chain", "and_or_xonsh", "chain_trailing_op", "args_bad_tail", "stmts_then_error", "list_binop_items_bad", "tuple_binop_items_bad", "list_call_items_bad", "list_subscript_items_bad",
 }
 
 
